@@ -314,7 +314,7 @@ func genC12() *rapid.Generator[C12Case] {
 		}
 		holds := []int{0, 0, 0, 0, 0, 0, 0, 0, 0, 0, 0, 0, 0, 0, 50, 700, 2500, 6500}
 		if ev.Thorough() {
-			holds = append(holds, 6500, 6500, 12000, 31000)
+			holds = append(holds, 0, 0, 0, 0, 0, 0, 0, 0, 0, 6500, 12000, 31000)
 		}
 		c.HoldMs = rapid.SampledFrom(holds).Draw(t, "hold")
 		for i := rapid.IntRange(0, 4).Draw(t, "npre"); i > 0; i-- {
